@@ -26,7 +26,7 @@ DEFAULT_PROFILE = dict(
     subscript_whole_array_results=True, raise_=True, nested_calls=True,
     persistent_arrays=True, name_pool="plain", zero_trip=True, negative_consts=True,
     dead_code=True, cond_in_call_args=True, bare_power=True, ne_operator=True,
-    pow_of_pow=True, loop_bound_vars=True, fresh_names=False, lookups=False, complex_vars=False, assign_all_state=False, time_advance=True, force_phases=None, extra_kinds=(), zero_arg_calls=True, builtin_set=None, yield_uvec_only=False, matmul_only=False, yield_call_free=False, minmax_loop_counter=True, builtin_kwargs=True, uvfn_boost=False, kw_reverse=True, triangular=True, recall=True, int_reassign=True, acc_loops=True,
+    pow_of_pow=True, loop_bound_vars=True, fresh_names=False, lookups=False, complex_vars=False, assign_all_state=False, time_advance=True, force_phases=None, extra_kinds=(), zero_arg_calls=True, builtin_set=None, yield_uvec_only=False, matmul_only=False, yield_call_free=False, minmax_loop_counter=True, builtin_kwargs=True, uvfn_boost=False, kw_reverse=True, triangular=True, recall=True, int_reassign=True, acc_loops=True, guarded_partial=True,
     real_temps=None, uvec_temps=None, arr_temps=None, flag_temps=None, int_temps=None,
 )
 
@@ -643,6 +643,14 @@ class Gen:
             mixed = normal([self.choice(["sum", "sum", "prod"]), V(lv0), C(self.choice([0.5, 1.5, 0.25, 2.5]))])
             rhs = normal(["sum", rhs, ["call", "<func>g", [mixed], {}]])
             self.features.add("counter_first_arg")
+        if self.p["guarded_partial"] and self.p["ifexpr"] and not two and others and self.chance(30):
+            # a read that is only valid under its guard: b[i+1] if i+1 < len(b) else c   (stencil boundary)
+            b = self.choice(others)
+            nb = self.defined[b][1]
+            nxt = ["sum", V(lv), C(1)]
+            rhs = normal(["sum", rhs, ["if", ["cmp", nxt, "<", C(nb)], ["sub", V(b), [nxt]], self.real_leaf()]])
+            self.features.add("guarded_partial")
+            self.features.add("ifexpr")
         if self.chance(35):
             rhs = normal(["sum", ["sub", V(a), [idx]], rhs])
             self.features.add("self_update")
@@ -879,6 +887,33 @@ class Gen:
             ops.append(loop)
         return ops
 
+    def op_stencil(self, depth):
+        """a[i] <- ... + (b[i+1] if i+1 < len(b) else c): a read that is only valid under its guard."""
+        if not (self.p["guarded_partial"] and self.p["ifexpr"] and self.p["arrays"] and self.p["loops"]):
+            return []
+        ops = []
+        for _ in range(2):
+            if len(self.names_of("arr_indexable")) < 2:
+                ops += self.op_new_array(depth)
+        arrs = self.names_of("arr_indexable")
+        if len(arrs) < 2:
+            return ops
+        a = self.choice(arrs)
+        b = self.choice([x for x in arrs if x != a])
+        na, nb = self.defined[a][1], self.defined[b][1]
+        lv = self.choice(LOOP_VARS)
+        self.loop_env[lv] = (0, na)
+        base = strip_reads_of(self.real_expr(1), a)
+        self.loop_env.clear()
+        off = self.choice([1, 1, 2])
+        nxt = ["sum", V(lv), C(off)]
+        guard = ["cmp", nxt, "<", C(nb)]
+        if self.chance(30):
+            guard = ["cmp", C(nb), ">", nxt]
+        rhs = normal(["sum", base, ["if", guard, ["sub", V(b), [nxt]], self.real_leaf()]])
+        self.features.update(["guarded_partial", "ifexpr", "loop"])
+        return ops + [["assign", a, [V(lv)], rhs, [[lv, C(0), self.bound_tree(na)]]]]
+
     def op_acc_loop(self):
         """x <- x + c under a counted loop whose counter is not mentioned (only the trip count matters)."""
         if not (self.p["loops"] and self.p["acc_loops"]):
@@ -984,9 +1019,13 @@ class Gen:
                 kinds += ["tri"]
             if self.p["acc_loops"] and self.p["loops"]:
                 kinds += ["accloop"]
+            if self.p["guarded_partial"] and self.p["ifexpr"] and self.p["arrays"] and self.p["loops"]:
+                kinds += ["stencil"]
             k = self.choice(kinds)
             if k == "accloop":
                 new = self.op_acc_loop()
+            elif k == "stencil":
+                new = self.op_stencil(depth)
             elif k == "recall":
                 new = self.op_recall()
             elif k == "tri":
